@@ -29,7 +29,7 @@ Section Cover.
   Variable startok : bool -> bool.    (* admissible values of regenerate_sequences *)
   Variable seqok : N -> bool.         (* admissible sequence inputs *)
   Hypothesis HA : forall rg s d, startok rg = true -> seqok s = true -> good (after (fn (d_id d)) fixed rg s d).
-  Hypothesis HB : forall d, tombstoned d = true -> good d.
+  Hypothesis HB : forall rg s d, startok rg = true -> resync_doc (fn (d_id d)) fixed rg s d = None -> good d.
   Hypothesis HC : wr = true -> forall d w d', d_id d = w_doc w -> put_doc empty (fn (w_doc w)) d w = Some d' ->
                   good d \/ d_cur d = None -> good d'.
 
@@ -51,17 +51,19 @@ Section Cover.
         startok (r_regen st) = true /\
         (forall c, StronglySorted evl (qget (r_queue st) c)) /\
         (forall c e, In e (qget (r_queue st) c) -> lookup (r_last st) c < e_cas e /\ e_cas e <= lookup (r_idx st) (e_id e)) /\
-        (forall c e, In e (qget (r_queue st) c) -> e_tomb e = true -> forall d, In d (r_docs st) -> d_id d = e_id e -> good d) /\
+        (forall c e, In e (qget (r_queue st) c) -> e_skip e = true -> forall d, In d (r_docs st) -> d_id d = e_id e -> good d) /\
         (forall d, In d (r_docs st) -> In (col d) (r_cols st) -> good d \/ pending st d)
     | MStopped | MCrashed =>
         forall d, In d (r_docs st) -> In (col d) (r_cols st) -> good d \/ lookup (r_pckpt st) (col d) < lookup (r_idx st) (d_id d)
     | MCompleted => forall d, In d (r_docs st) -> In (col d) (r_cols st) -> good d
     end.
 
-  Lemma tomb_at_good : forall (docs : list doc) id d, tomb_at docs id = true -> In d docs -> d_id d = id -> good d.
+  Lemma skip_at_good : forall rg (docs : list doc) id d, startok rg = true ->
+    skip_at col_of syncs fixed rg docs id = true -> In d docs -> d_id d = id -> good d.
   Proof.
-    intros docs id d H Hd Hid. unfold tomb_at in H. rewrite forallb_forall in H. specialize (H d Hd).
-    apply N.eqb_eq in Hid. rewrite Hid in H. cbn in H. apply HB. exact H.
+    intros rg docs id d Hrg H Hd Hid. unfold skip_at in H. rewrite forallb_forall in H. specialize (H d Hd).
+    pose proof Hid as Hid'. apply N.eqb_eq in Hid'. rewrite Hid' in H. cbn in H.
+    apply (HB rg 0 d Hrg). rewrite Hid. destruct (resync_doc (fn id) fixed rg 0 d); [discriminate | reflexivity].
   Qed.
 
   (* what Start establishes, from "every selected document is good or above the checkpoint [ck]" *)
@@ -69,12 +71,12 @@ Section Cover.
     BInv st -> startok regen = true ->
     (forall d, In d (r_docs st) -> In (col d) cs -> good d \/ lookup ck (col d) < lookup (r_idx st) (d_id d)) ->
     GInv (mkR (r_docs st) (r_idx st) (r_clock st) MRunning cs pc ck rid regen hasall
-              (map (fun c => (c, snapshot col_of c (lookup ck c) (r_docs st) (r_idx st))) cs) ck pc
+              (map (fun c => (c, snapshot col_of syncs fixed c (lookup ck c) regen (r_docs st) (r_idx st))) cs) ck pc
               (r_ps st) (r_pseq st) (r_log st) (r_sel st ++ cs) (r_dirty st) (r_alloc st)).
   Proof.
     intros st cs ck regen pc rid hasall B Hrg H. unfold GInv. cbn.
-    pose (f := fun c0 => snapshot col_of c0 (lookup ck c0) (r_docs st) (r_idx st)).
-    change (map (fun c => (c, snapshot col_of c (lookup ck c) (r_docs st) (r_idx st))) cs) with (map (fun c0 => (c0, f c0)) cs).
+    pose (f := fun c0 => snapshot col_of syncs fixed c0 (lookup ck c0) regen (r_docs st) (r_idx st)).
+    change (map (fun c => (c, snapshot col_of syncs fixed c (lookup ck c) regen (r_docs st) (r_idx st))) cs) with (map (fun c0 => (c0, f c0)) cs).
     assert (Hq : forall c, qget (map (fun c0 => (c0, f c0)) cs) c = f c \/ qget (map (fun c0 => (c0, f c0)) cs) c = []).
     { intros c. destruct (in_dec N.eq_dec c cs) as [Hc|Hc]; [left; apply qget_map_in; exact Hc | right; apply qget_map_notin; exact Hc]. }
     split; [exact Hrg|]. split; [|split; [|split]].
@@ -83,10 +85,10 @@ Section Cover.
       apply snapshot_in in He. destruct He as [p [Hp [_ [Hck ->]]]]. cbn. split; [exact Hck|].
       destruct p as [k v]. cbn. rewrite (lookup_nodup _ k v (b_keys _ _ st B) Hp). lia.
     - intros c e He Ht d Hd Hid. destruct (Hq c) as [E|E]; rewrite E in He; [|destruct He].
-      apply snapshot_in in He. destruct He as [p [_ [_ [_ ->]]]]. cbn in *. eapply tomb_at_good; eassumption.
+      apply snapshot_in in He. destruct He as [p [_ [_ [_ ->]]]]. cbn in *. eapply skip_at_good; eassumption.
     - intros d Hd Hc. destruct (H d Hd Hc) as [Hg|Hlt]; [left; exact Hg|]. right.
       unfold pending. cbn. rewrite (qget_map_in f cs _ Hc).
-      exists (mkEv (d_id d) (lookup (r_idx st) (d_id d)) (tomb_at (r_docs st) (d_id d))). split; [|reflexivity].
+      exists (mkEv (d_id d) (lookup (r_idx st) (d_id d)) (skip_at col_of syncs fixed regen (r_docs st) (d_id d))). split; [|reflexivity].
       apply snapshot_in. exists (d_id d, lookup (r_idx st) (d_id d)). cbn. split; [apply lookup_in; lia|]. auto.
   Qed.
 
@@ -190,8 +192,8 @@ Section Cover.
         destruct (N.eq_dec c (col d)) as [E|E].
         - rewrite <- E in *. rewrite qget_qset_same by exact Hne. rewrite Eq in He'. destruct He' as [<-|He']; [congruence | exact He'].
         - rewrite qget_qset_other by exact E. exact He'. }
-      destruct (e_tomb e) eqn:Et.
-      + (* a tombstone in the snapshot: skipped *)
+      destruct (e_skip e) eqn:Et.
+      + (* the callback cancels on the snapshot copy *)
         unfold GInv. cbn. split; [exact G0|]. split; [exact Q1|]. split; [|split].
         * intros c' e' He'. split; [apply Q3a; exact He' | apply (G3 c' e'); apply (Qin c' e' He')].
         * intros c' e' He' Ht'. apply (G4 c' e'); [apply (Qin c' e' He') | exact Ht'].
